@@ -233,17 +233,26 @@ def session_activity(rng):
     from emd import sift as S, cycles as C
     with quiet():
         cfg = S.get_config(gens.pick(rng, ['sift', 'mask_sift', 'ensemble_sift']))
-        cfg['extrema_opts/mag_pad_opts/stat_length'] = 3          # edits of a private configuration object ...
-        cfg['extrema_opts/mag_pad_opts/mode'] = 'mean'
-        cfg['imf_opts/sd_thresh'] = .3
-        cfg['envelope_opts']['interp_method'] = 'pchip'
-        del cfg['extrema_opts/loc_pad_opts/reflect_type']
+        # edits of a private configuration object (different values every time) ...
+        cfg['extrema_opts/mag_pad_opts/stat_length'] = int(rng.integers(2, 6))
+        cfg['extrema_opts/mag_pad_opts/mode'] = gens.pick(rng, ['mean', 'maximum', 'minimum', 'median'])
+        cfg['imf_opts/sd_thresh'] = float(rng.uniform(.2, .5))
+        cfg['envelope_opts']['interp_method'] = gens.pick(rng, ['pchip', 'mono_pchip'])
+        cfg['extrema_opts']['loc_pad_opts']['new_key'] = 1
+        del cfg['extrema_opts']['loc_pad_opts']['new_key']
         cy = C.Cycles(gens.synthetic_phase(rng, ncycles=4))        # ... and an unrelated container
         cy.compute_cycle_timings()
         np.random.seed(int(rng.integers(2 ** 31)))                # ... and whatever happened to the global RNG
 
 
+DEFAULTS = {}
+
+
 def run_entry(ctx, name, build, rng, shared, round_seed):
+    from emd import sift as S_
+    if not DEFAULTS and not ctx.replaying:
+        import copy as _c
+        DEFAULTS.update({k: _c.deepcopy(dict(S_.get_config(k).store)) for k in ('sift', 'mask_sift', 'ensemble_sift', 'complete_ensemble_sift')})
     func, args, kwargs, det = build(rng, shared)
     dig = digest(name, *[a for a in args if isinstance(a, np.ndarray)])
     shared_before = deep_digest(shared)
@@ -282,6 +291,11 @@ def run_entry(ctx, name, build, rng, shared, round_seed):
         ctx.violation(key, '%s raised %s: %s on valid read-only input' % (name, type(exc).__name__, str(exc)[:120]), case)
         return
     ctx.count('sanitized_calls_ok')
+    if DEFAULTS and deep_digest({k: dict(S_.get_config(k).store) for k in DEFAULTS}) != deep_digest(DEFAULTS):
+        ctx.violation('defaults-changed', 'get_config() no longer returns the default options it returned at the start of the session '
+                      '(something edited a shared default in place)', case)
+        DEFAULTS.clear()
+        return
     if det:
         # what the caller does with a result is the caller's business: keep a copy, then overwrite every returned array in
         # place - if a result aliases internal state (a cache, a module-level default, ...) the repeated call shows it
